@@ -655,7 +655,10 @@ impl PacketReceiver for IceConn {
                                 *probation_guard = None; // drop state
                                 drop(probation_guard);
 
-                                if win_addr != current_remote {
+                                // `current_remote` was read at entry; the provisional
+                                // follow above may have moved `remote_addr` since, so the
+                                // winner must be compared with the live value.
+                                if win_addr != *self.remote_addr.read() {
                                     *self.remote_addr.write() = win_addr;
                                 }
                                 self.rtp_latched.store(true, Ordering::Relaxed);
